@@ -51,6 +51,9 @@ static inline bool is_left_child(const struct lrtr_ip_addr *addr, unsigned int l
 	/* A node must be inserted as left child if bit <lvl> of the IP address
 	 * is 0 otherwise as right child
 	 */
+	/* a node at the depth of the address width has used up every bit, nothing lies below it */
+	if (lvl >= (addr->ver == LRTR_IPV6 ? 128U : 32U))
+		return true;
 	return lrtr_ip_addr_is_zero(lrtr_ip_addr_get_bits(addr, lvl, 1));
 }
 
